@@ -136,6 +136,23 @@ def handle (toks : List String) : String :=
     | .error err => "CHART " ++ showErr err
     | .ok c => match notesPerSecond c (i.toNat!, d.toNat!) (parseBound s) (parseBound e) with
       | .ok v => showRat v | .error err => showErr err
+  | ["hopo", res, tick, lanes, tap, forced, ptick, planes] =>
+    let toL (x : String) : List Bool := x.toList.map (· == '1')
+    let prev : Option (Nat × List Bool) := if ptick == "~" then none else some (ptick.toNat!, toL planes)
+    match hopoState (tripletThreshold (parseInt res)) tick.toNat! (toL lanes) (tap == "1") (forced == "1") prev with
+    | .ok h => showHopo h | .error e => showErr e
+  | ["spdata", phr, ticks] =>
+    -- phrases t:l,t:l ; note ticks a,b,c : threaded cursor as in _build_note_events_from_data
+    let ps : List Phrase := if phr == "-" then [] else (phr.splitOn ",").map fun p => match p.splitOn ":" with
+      | [a, b] => ⟨a.toNat!, b.toNat!⟩ | _ => ⟨0, 0⟩
+    let ts := if ticks == "-" then [] else (ticks.splitOn ",").map String.toNat!
+    let rec goSp (l : List Nat) (cur : Nat) (acc : List String) : String :=
+      match l with
+      | [] => " ".intercalate acc.reverse
+      | t :: r => match spData t ps cur with
+        | .ok (d, c) => goSp r c (showOptNat d :: acc)
+        | .error e => " ".intercalate (acc.reverse ++ [showErr e])
+    goSp ts 0 []
   | ["imports", order] =>
     -- per step: ok / fail; then whether the final state is good (no partial module, canonical bindings)
     let seq := if order == "-" then [] else (order.splitOn ",").map String.toNat!
